@@ -524,11 +524,65 @@ def origin_contract(st, label, out):
             out.append("%s: frame %d (%s): origin contract raised %r" % (label, idx, fr.funcname, ex))
 
 
+def same_first(om, st):
+    """extract_outermost(x) equals extract(x).frames[0]: same frame object, line, contexts and flags"""
+    if not st.frames:
+        return False
+    f0 = st.frames[0]
+    return (om.pyframe is f0.pyframe and om.lineno == f0.lineno and om.contexts == f0.contexts
+            and bool(om.hide) == bool(f0.hide) and bool(om.hide_line) == bool(f0.hide_line))
+
+
+def _hidden_gen():
+    __tracebackhide__ = True
+    yield 1
+
+
+def _custom_hide():
+    yield 1
+
+
+def _custom_hide_line():
+    yield from _parked()
+
+
+def _elab_mark():
+    yield 1
+
+
 def other_items():
-    """C16 beyond chains: threads, greenlets, custom stack items with and without frames"""
+    """C16 beyond chains: threads, greenlets, custom stack items with and without frames, outermost frames that
+    carry flags set by elaborate_frame hooks"""
     import threading
     bad = []
     n = 0
+    # the outermost frame is one that a hook flags: __tracebackhide__, customize(hide / hide_line), a registered hook
+    stackscope.customize(_custom_hide, hide=True)
+    stackscope.customize(_custom_hide_line, hide_line=True)
+
+    @stackscope.elaborate_frame.register(_elab_mark)
+    def _mark(frame, next_inner):
+        frame.hide = True
+        frame.hide_line = True
+        return None
+    for label, fn, want in (("__tracebackhide__ generator", _hidden_gen, (True, False)),
+                            ("customize(hide=True) generator", _custom_hide, (True, False)),
+                            ("customize(hide_line=True) generator", _custom_hide_line, (False, True)),
+                            ("generator with a registered elaborate_frame hook", _elab_mark, (True, True))):
+        g = fn()
+        next(g)
+        n += 1
+        st = stackscope.extract(g)
+        if not st.frames or (bool(st.frames[0].hide), bool(st.frames[0].hide_line)) != want:
+            bad.append("harness: %s: flags of frames[0] are not %s" % (label, want))
+        try:
+            om = stackscope.extract_outermost(g)
+            if not same_first(om, st):
+                bad.append("%s: extract_outermost differs from frames[0] (hide %s/%s hide_line %s/%s)" % (
+                    label, om.hide, st.frames[0].hide, om.hide_line, st.frames[0].hide_line))
+        except Exception as ex:
+            bad.append("%s: extract_outermost raised %r" % (label, ex))
+        g.close()
     ev, ready = threading.Event(), threading.Event()
 
     def tgen():
@@ -552,8 +606,8 @@ def other_items():
     origin_contract(st, "parked thread", bad)
     try:
         f0 = stackscope.extract_outermost(th)
-        if not st.frames or f0.pyframe is not st.frames[0].pyframe:
-            bad.append("parked thread: extract_outermost differs from frames[0]")
+        if not same_first(f0, st):
+            bad.append("parked thread: extract_outermost differs from frames[0] (object, line, contexts or flags)")
     except Exception as ex:
         bad.append("parked thread: extract_outermost raised %r" % (ex,))
     ev.set()
@@ -586,7 +640,7 @@ def other_items():
         n += 1
         origin_contract(st, "suspended greenlet", bad)
         f0 = stackscope.extract_outermost(gl)
-        if not st.frames or f0.pyframe is not st.frames[0].pyframe:
+        if not same_first(f0, st):
             bad.append("suspended greenlet: extract_outermost differs from frames[0]")
         gl.throw(greenlet.GreenletExit)
         for label, g2 in (("dead greenlet", gl), ("unstarted greenlet", greenlet.greenlet(gbody))):
@@ -607,7 +661,7 @@ def other_items():
         origin_contract(st, label, bad)
         try:
             f0 = stackscope.extract_outermost(item)
-            if not st.frames or f0.pyframe is not st.frames[0].pyframe:
+            if not same_first(f0, st):
                 bad.append("%s: extract_outermost differs from frames[0]" % label)
         except RuntimeError:
             if st.frames:
